@@ -143,6 +143,13 @@ pub mod strategy;
 #[cfg(feature = "weak")]
 mod weak;
 
+/// Introspection hooks of the verification harness in /verif (only with `--cfg arc_swap_verif`).
+#[cfg(arc_swap_verif)]
+#[doc(hidden)]
+pub mod verif {
+    pub use crate::debt::verif::*;
+}
+
 use core::borrow::Borrow;
 use core::fmt::{Debug, Display, Formatter, Result as FmtResult};
 use core::marker::PhantomData;
